@@ -3121,3 +3121,11 @@ mod browse_tests {
         );
     }
 }
+
+/// Verification hook: re-export of the (module-private) receive-window types.
+#[cfg(rs_matter_verif)]
+pub mod verif_dedup {
+    #[cfg(feature = "groups")]
+    pub use super::dedup::GroupCtrStore;
+    pub use super::dedup::RxCtrState;
+}
